@@ -30,11 +30,19 @@ def main():
             for m in json.load(open(os.path.join(d, fn))):
                 path = os.path.join(scratch, m['file'])
                 orig = open(path).read()
-                if orig.count(m['old']) != 1:
-                    print('SELFTEST-BROKEN %s/%s: pattern occurs %d times' % (prop, m['name'], orig.count(m['old'])))
+                edits = m.get('edits') or [{'old': m['old'], 'new': m['new']}]
+                text = orig
+                broken = False
+                for e in edits:
+                    if text.count(e['old']) != 1:
+                        print('SELFTEST-BROKEN %s/%s: pattern occurs %d times: %r' % (prop, m['name'], text.count(e['old']), e['old'][:60]))
+                        broken = True
+                        break
+                    text = text.replace(e['old'], e['new'])
+                if broken:
                     bad += 1
                     continue
-                open(path, 'w').write(orig.replace(m['old'], m['new']))
+                open(path, 'w').write(text)
                 try:
                     for p in m.get('props', [prop]):
                         r = subprocess.run([os.path.join(VERIF, 'check'), p, '--no-probe'],
